@@ -434,14 +434,35 @@ func c06Recover(r *Run, m *ServerModel, rule string) {
 		if !ok {
 			continue
 		}
-		lit, ok := unparen(d.Call.Fun).(*ast.FuncLit)
-		if !ok {
+		// the deferred function: a literal (it assigns the named result), or a declared
+		// function / method that is handed &result (it assigns through the pointer); recover()
+		// has to be called by that function itself
+		var body *ast.BlockStmt
+		target := resName
+		if lit, ok := unparen(d.Call.Fun).(*ast.FuncLit); ok {
+			body = lit.Body
+		} else if tf := r.L.FuncOf(callee(info, d.Call)); tf != nil && tf.Decl.Body != nil {
+			idx := 0
+			for _, f := range tf.Decl.Type.Params.List {
+				for _, nm := range f.Names {
+					if idx < len(d.Call.Args) {
+						if u, isAddr := unparen(d.Call.Args[idx]).(*ast.UnaryExpr); isAddr && u.Op == token.AND && r.L.str(u.X) == resName && resName != "" {
+							body, target = tf.Decl.Body, "*"+nm.Name
+						}
+					}
+					idx++
+				}
+			}
+		}
+		if body == nil {
 			continue
 		}
 		okDefer = true
 		first = i == 0
-		ast.Inspect(lit.Body, func(n ast.Node) bool {
+		ast.Inspect(body, func(n ast.Node) bool {
 			switch v := n.(type) {
+			case *ast.FuncLit:
+				return false // recover() in a nested function would not stop the panic
 			case *ast.CallExpr:
 				if id, ok := v.Fun.(*ast.Ident); ok && id.Name == "recover" {
 					if _, isB := info.Uses[id].(*types.Builtin); isB {
@@ -449,7 +470,7 @@ func c06Recover(r *Run, m *ServerModel, rule string) {
 					}
 				}
 			case *ast.AssignStmt:
-				if len(v.Lhs) == 1 && r.L.str(v.Lhs[0]) == resName && resName != "" {
+				if len(v.Lhs) == 1 && r.L.str(v.Lhs[0]) == target && resName != "" {
 					if val, ok := errnoExpr(info, v.Rhs[0]); ok && val == 14 {
 						okAssign = true
 					}
@@ -667,7 +688,7 @@ func checkC14(r *Run) {
 					bad = append(bad, fi.Key+" → "+s.Callee)
 				}
 			}
-			for _, fa := range db.Fields {
+			for _, fa := range m.fields() {
 				if fa.Root == fi && fa.Write && strings.HasPrefix(fa.Key, "p9.connState.") {
 					bad = append(bad, fi.Key+" writes "+fa.Key)
 				}
